@@ -119,3 +119,39 @@ package core
 //@   assumed
 //@   option event GetStoreRegionCount
 //@   modifies nothing
+
+// ================= C17: loading stores and regions back, pruning =================
+//@ opaque github.com/tikv/pd/pkg/encryption::EncryptRegion, github.com/tikv/pd/pkg/encryption::DecryptRegion
+
+// LoadStores pages through the store keys: every page starts at the key of (last delivered id + 1), has at most
+// 100 entries, every decoded store is delivered to the callback with the id that advances the cursor, and the
+// scan stops at the first short page.
+//@ func (*Storage).LoadStores
+//@   props C17
+//@   at storePath 2 assert [page-start] arg0 == nextID
+//@   at LoadRange 1 assert [page] arg0 == callres("storePath", 2) && arg1 == callres("storePath", 1) && arg2 == 100
+//@   at f 1 assert [delivered] arg0 != nil && arg0.meta == store && (store.Id < MaxUint64 ==> nextID == store.Id + 1)
+//@   at f 1 assert [edge-maxid] nextID > store.Id
+//@   modifies *
+
+// loadRegions pages through the region keys with an adaptive page size: on a failed read the same start key is
+// retried with half the limit (never below 100); every region reported back by the callback as overlapped or
+// stale is deleted from storage before the next region is handed over.
+//@ func loadRegions
+//@   props C17
+//@   at LoadRange 1 assert [page] arg0 == callres("regionPath", 2) && arg1 == callres("regionPath", 1) && arg2 == rangeLimit && rangeLimit >= 100
+//@   at regionPath 2 assert [page-start] arg0 == nextID
+//@   at f 1 assert [delivered] arg0 != nil && arg0.meta == region && (region.Id < MaxUint64 ==> nextID == region.Id + 1)
+//@   at f 1 assert [edge-maxid] nextID > region.Id
+//@   at deleteRegion 1 assert [prunes-what-the-callback-reported] item == callres("f", 1)[rangeindex + 1] && arg0 == kv && (item != nil ==> arg1 == item.meta)
+//@   loop 1 invariant rangeLimit >= 100 && rangeLimit <= 10000
+//@   modifies *
+
+// flush writes the whole batch and only then empties it; SaveRegion either batches the region or flushes.
+//@ func (*RegionStorage).flush
+//@   props C17
+//@   at SaveRegions 1 assert [whole-batch] arg0 == s.batchRegions
+//@   ensures [emptied-only-on-success] result != nil ==> s.cacheSize == old(s.cacheSize) && s.batchRegions == old(s.batchRegions)
+//@   ensures [emptied] result == nil ==> s.cacheSize == 0 && s.batchRegions != old(s.batchRegions) && len(s.batchRegions) == 0
+//@   modifies s.cacheSize, s.batchRegions
+
